@@ -356,14 +356,14 @@ static void rec_gen(int tier) {
 			}
 		}
 	for (unsigned long qs = 12; qs <= 14; qs++)
-		for (unsigned long ps = qs + 6; ps <= qs + 14; ps += 4) {
+		for (unsigned long ps = qs + 6; ps <= qs + 10; ps += 4) {      // k grows by factors of 62: p stays below 2^31
 			reset_ev("gen", ex++);
 			for (int d = 0; d < draws; d++) {
 				Mpz p2, q2, k2((long)rrange(1, 200));
 				json e2; e2["e"] = "gen"; e2["fn"] = "lprime_prefix"; e2["psize"] = ps; e2["qsize"] = qs; e2["k0"] = outv(k2.v);
 				tmcg_mpz_lprime_prefix(p2, q2, k2, ps, qs, MR);
 				e2["p"] = outv(p2.v); e2["q"] = outv(q2.v); e2["k"] = outv(k2.v);
-				emit(e2);
+				if (mpz_sizeinbase(p2.v, 2UL) <= 31) emit(e2);       // TLC integers
 			}
 		}
 }
